@@ -19,7 +19,8 @@ EXPLANATION = (
     "found&non-empty: node(subject(self), remaining)}. C04.6: Encrypted/Compressed are only built on the passing edge of "
     "has_digest. C04.8: a decoded node holds no two equal assertion digests - the decoder's node accept exit is dominated by the "
     "passing edge of a strict adjacent-digest order test over the vector handed to the (sorting) node constructor. Does not decide "
-    "dCBOR validity of leaf payloads.")
+    "dCBOR validity of leaf payloads."
+    " C04.9: sink pairing (C02.1) - an encrypted / compressed element declares the digest of the element whose encoding it carries. C04.4 also: the checked node constructor has no refusal other than the element test.")
 TRUSTED = ['Vec::push/remove/is_empty, Iterator::any/all/position have their std semantics']
 FLOORS = {'C04.1': 7, 'C04.3': 2, 'C04.4': 3, 'C04.5': 3, 'C04.6': 2, 'C04.8': 1}
 
@@ -113,6 +114,13 @@ def check(ctx):
     # C04.8: the decoding constructor sorts what it is given, so equal digests are only kept out of a decoded node by the
     # decoder's own strict adjacent-order test over the vector it hands to that constructor
     C06.check_decoder_order(ctx, 'C04.8')
+    # C04.9: "encrypted and compressed elements carry a digest; the digests held in the structure agree with those recomputed from its
+    # children": each digest-declaring sink pairs its payload with the digest of the element whose encoding the payload is (C02.1)
+    if hasattr(ctx, 'dep'):
+        try:
+            obscure.check_sinks(ctx, 'C04.9')
+        except Exception as e:
+            ctx.fail('C04.9', '-', 'sink pairing (C02.1) could not be evaluated: %r' % e, key='C04.9|c02')
     # worklist over call sites of node-constructing functions; wrappers that pass a parameter through are followed
     todo = list(ctors.values())
     VALIDATING.clear()
@@ -332,6 +340,15 @@ def wrapper_validity(ctx, b, tb, bi, param):
             problems.append('element validation is not assertion|obscured: %s (%s)' % (bad[:3], g.describe()))
             continue
         ctx.ok('C04.4', site, 'construction only after every element passed is_subject_assertion(a) | is_subject_obscured(a): %s; %s' % (g.describe(), g.info))
+        # the checked constructor refuses NOTHING else: once every element passed the test no explicit error exit is reachable (a further
+        # refusal - on the subject's shape, on sizes - would make some envelopes the library builds and encodes undecodable)
+        if True:
+            env_ok = {g.term: (g.kind == 'all')} if g.kind in ('all', 'any') else {a1[0]: True, a2[0]: True}
+            R = reach_under(b, tb, env_ok)
+            extra = [(bi2, si2) for bi2, si2, t2 in ret_defs(tb) if t2[0] == 'agg' and t2[2] == 'Err' and bi2 in R]
+            if extra:
+                ctx.fail('C04.4', ctx.site(b, extra[0][0], extra[0][1]), 'the checked node constructor %s refuses on a further condition of its own (an error exit is reachable although every element '
+                         'is an assertion or obscured): some nodes the library itself builds no longer decode' % b.name, key='C04.4|extra_refusal|' + b.path)
         return True
     ctx.fail('C04.4', site, 'decoder-side validation is not "every element is assertion|obscured" guarding the construction: %s' % '; '.join(problems), key='C04.4|wrapper|' + b.path)
     return False
